@@ -18,11 +18,11 @@ func VerifC01_BatchRemoveEntitiesRel() { VerifC06_RemoveEntitiesRelConcrete() }
 func VerifC01_BatchNewRel()            { VerifC06_NewRel() }
 func VerifC01_ShrinkRel()              { VerifC15_RelShrink() }
 func VerifC01_ResetRel()               { VerifC16_WorldResetRel() }
-func VerifC01T_BatchAddPlain()         { VerifC06_AddPlain() }
-func VerifC01T_BatchExchangePlain()    { VerifC06_ExchangePlain() }
-func VerifC01T_BatchRemovePlain()      { VerifC06_RemovePlain() }
-func VerifC01T_BatchRemoveEntities()   { VerifC06_RemoveEntitiesPlain() }
-func VerifC01T_IncrementalShrinkRel()  { VerifC15_IncrementalShrinkRel() }
+func VerifC01T_BatchAddPlain()         { vNoMul = true; VerifC06_AddPlain() }
+func VerifC01T_BatchExchangePlain()    { vNoMul = true; VerifC06_ExchangePlain() }
+func VerifC01T_BatchRemovePlain()      { vNoMul = true; VerifC06_RemovePlain() }
+func VerifC01T_BatchRemoveEntities()   { vNoMul = true; VerifC06_RemoveEntitiesPlain() }
+func VerifC01T_IncrementalShrinkRel()  { vNoMul = true; VerifC15_IncrementalShrinkRel() }
 
 // C02 handles: batch creation and removal, Reset ("issued since it was created or last reset")
 func VerifC02_AliveAcrossResetPlain() { VerifC16_WorldResetPlain() }
@@ -82,3 +82,18 @@ func VerifC06_TableAddAll() { VerifC01_TableAddAll() }
 func VerifC11_TableAddAll() { VerifC01_TableAddAll() }
 func VerifC11_TableRemove() { VerifC01_TableRemove() }
 func VerifC11_TableAdd()    { VerifC01_TableAdd() }
+
+// C07: every batch callback runs with the world locked, whatever observers are registered
+func VerifC07_BatchRemoveEntitiesRel()   { VerifC06_RemoveEntitiesRel() }
+func VerifC07_BatchRemoveEntitiesPlain() { VerifC06_RemoveEntitiesPlain() }
+func VerifC07_BatchAddRel()              { VerifC06_AddRel() }
+func VerifC07_BatchExchangeRelation()    { VerifC06_ExchangeRelation() }
+func VerifC07_BatchSetRelations()        { VerifC06_SetRelations() }
+func VerifC07_BatchNewRel()              { VerifC06_NewRel() }
+
+// C16: whole-table reset (World.Reset resets every table) at every size
+func VerifC16_TableResetAfterGrowth() { VerifC11_TableResetAfterGrowth() }
+func VerifC16_TableReset()            { VerifC01_TableReset() }
+
+// C15: capacity change keeps every column's rows (kernel)
+func VerifC11_TableShrink() { VerifC15_TableShrink() }
